@@ -115,7 +115,9 @@ class AsyncListener:
             self.data == data
             and (now - _DUPLICATE_PACKET_SUPPRESSION_INTERVAL) < self.last_time
             and self.last_message is not None
-            and not self.last_message.has_qu_question()
+            # A query with a QU question is answered again for every copy. A response
+            # that echoes such a question is a response like any other.
+            and not (self.last_message.is_query() and self.last_message.has_qu_question())
             # The same bytes from another sender are not a duplicate: two legacy
             # queriers asking the same question each wait for a reply of their own
             and self.last_message.source is not None
